@@ -2,7 +2,7 @@
 from .. import scriptprop
 
 ID = "C11"
-GEN = ["BimapShapes.lean"]   # regenerated from the source on every run (tie 4B): kernels / call shapes / function shapes
+GEN = ["BimapShapes.lean", "MapsShapes.lean"]   # regenerated from the source on every run (tie 4B): kernels / call shapes / function shapes
 RULE = ("histories of add/rmf/rmr/clear/clone over keys 0..3 x values 0..3 (every collision pattern within a few operations) on 2-3 bimaps per world (zero values and clones), "
         "both lookups over the whole universe + Len + Range observed after every mutation; thorough: every history of length <= 4 exhaustively; non-trivial = at least 3 adds")
 ASSUMPTIONS = ["independence of a clone is observed by continuing to mutate both, not proved"]
